@@ -285,7 +285,10 @@ def network_simplex(
             return Result(None, float("inf"), iterations, total_arcs, Status.INFEASIBLE)
 
     total_cost = sum(flow[i] * cost[i] for i in range(m))
-    flow_dict = {(source[i], target[i]): flow[i] for i in range(m) if flow[i] > 0}
+    flow_dict: dict[tuple[int, int], int] = {}
+    for i in range(m):
+        if flow[i] > 0:  # parallel arcs share a key: pool their flow instead of overwriting it
+            flow_dict[(source[i], target[i])] = flow_dict.get((source[i], target[i]), 0) + flow[i]
 
     return Result(flow_dict, total_cost, iterations, total_arcs)
 
